@@ -22,7 +22,11 @@ The subset and the translation scheme are described in design_notes/py2lean.md. 
     otherwise the continuation is duplicated into both branches;
   * every loop becomes a local structurally recursive function (`<fn>_while<k>` on fuel, `<fn>_for<k>`
     on the iteration count or on the list iterated) whose arguments are the loop-carried variables;
-  * named tuples become structures, IntEnum classes become member lists (read from the class AST).
+  * named tuples become structures, IntEnum classes become member lists (read from the class AST);
+  * (asn1 profile) a plain class with an `__init__` made of `self.f = e` becomes a state record; a method
+    `C.m(self, ..)` becomes `C_m (self : C) ..`, `self.f = e` / `self.f.extend(e)` rebind `self`, a method that
+    changes `self` returns the new state beside its value; `with x.m(..) as w: BODY` is the derived definition
+    `C_with_m .. body` (design_notes/py2lean.md, section "Classes").
 """
 from __future__ import annotations
 
@@ -44,6 +48,34 @@ TARGETS = [
     "_read_asn1_integer",
     "_read_asn1_boolean",
     "_pack_asn1_boolean",
+    # the thin wrappers the message codec calls, and the public reader / writer classes
+    "_read_asn1_octet_string",
+    "_read_asn1_sequence",
+    "_read_asn1_set",
+    "_read_asn1_enumerated",
+    "_pack_asn1_enumerated",
+    "_pack_asn1_octet_string",
+    "ASN1Reader.__init__",
+    "ASN1Reader.__bool__",
+    "ASN1Reader.peek_header",
+    "ASN1Reader.skip_value",
+    "ASN1Reader.get_remaining_data",
+    "ASN1Reader.read_boolean",
+    "ASN1Reader.read_enumerated",
+    "ASN1Reader.read_integer",
+    "ASN1Reader.read_octet_string",
+    "ASN1Reader.read_set",
+    "ASN1Reader.read_sequence",
+    "ASN1Writer.__init__",
+    "ASN1Writer.__enter__",
+    "ASN1Writer.__exit__",
+    "ASN1Writer.push_sequence",
+    "ASN1Writer.push_set",
+    "ASN1Writer.write_boolean",
+    "ASN1Writer.write_enumerated",
+    "ASN1Writer.write_integer",
+    "ASN1Writer.write_octet_string",
+    "ASN1Writer.get_data",
 ]
 
 FILTER_TARGETS = [
@@ -122,6 +154,11 @@ class Unsupported(Exception):
 
 
 def lean_name(py: str) -> str:
+    if "." in py:                         # Class.method; `__dunder__` methods lose the underscores
+        c, m = py.split(".", 1)
+        if m.startswith("__") and m.endswith("__") and len(m) > 4:
+            m = m[2:-2]
+        return f"{c}_{m}"
     n = py.lstrip("_") or py
     if n in LEAN_KEYWORDS:
         n += "_py"
@@ -150,6 +187,10 @@ def lean_type(ty) -> str:
             return f"Option {lean_type_atom(ty[1])}"
         if ty[0] == "nt":
             return ty[1]
+        if ty[0] == "obj":               # an instance of a translated class: its state record
+            return ty[1]
+        if ty[0] == "ctor":              # `t.Type[T]`, T a TypeVar bound to int: only ever called, `enum_type(v)`
+            return f"{lean_type_atom(ty[1])} → Except Err {lean_type_atom(ty[1])}"
         if ty[0] == "tuple":
             return " × ".join(lean_type_atom(x) for x in ty[1])
     raise ValueError(f"no Lean type for {ty!r}")
@@ -158,6 +199,13 @@ def lean_type(ty) -> str:
 def lean_type_atom(ty) -> str:
     s = lean_type(ty)
     return f"({s})" if " " in s else s
+
+
+def self_root(node):
+    """the Name at the root of an attribute chain `a.b.c` (None for anything else)"""
+    while isinstance(node, ast.Attribute):
+        node = node.value
+    return node.id if isinstance(node, ast.Name) else None
 
 
 def int_lit(v: int) -> str:
@@ -176,10 +224,22 @@ class Module:
         self.nt_order: list[str] = []
         self.funcs: dict[str, ast.FunctionDef] = {}      # python qualified name -> def
         self.exceptions: dict[str, str] = {"ValueError": "Err.valueError"}
+        if not self.profile.ext:
+            self.exceptions["TypeError"] = "Err.notImpl"     # the runtime's class "any other exception"
+        self.classes: dict[str, ast.ClassDef] = {}       # plain classes with instance state (asn1 profile)
+        self.methods: dict[str, str] = {}                # "Class.method" -> Class
+        self.aliases: dict[str, list[tuple[str, str, int]]] = {}   # Class -> [(alias, method, line)]  (`a = m` in the body)
+        self.typevars: dict[str, str] = {}               # TypeVar name -> its bound (only `int`)
         pending_nt = []
         for node in tree.body:
             if isinstance(node, ast.FunctionDef):
                 self.funcs[node.name] = node
+            elif (not self.profile.ext and isinstance(node, ast.Assign) and len(node.targets) == 1
+                    and isinstance(node.targets[0], ast.Name) and isinstance(node.value, ast.Call)
+                    and ast.unparse(node.value.func) in ("t.TypeVar", "typing.TypeVar", "TypeVar")):
+                for kw in node.value.keywords:
+                    if kw.arg == "bound" and ast.unparse(kw.value) == "int":
+                        self.typevars[node.targets[0].id] = "int"
             elif isinstance(node, ast.ClassDef):
                 bases = [ast.unparse(b) for b in node.bases]
                 if any(b in ("enum.IntEnum", "IntEnum") for b in bases):
@@ -209,6 +269,18 @@ class Module:
                             if any(ast.unparse(d) == "classmethod" for d in st.decorator_list):
                                 self.funcs[f"{node.name}.{st.name}"] = st
                     self.dcs[node.name] = fields
+                elif not self.profile.ext and not bases and not node.decorator_list:
+                    # a plain class: instance state set up by __init__, methods taking `self`
+                    self.classes[node.name] = node
+                    self.aliases[node.name] = []
+                    for st in node.body:
+                        if isinstance(st, ast.FunctionDef) and not st.decorator_list:
+                            self.funcs[f"{node.name}.{st.name}"] = st
+                            self.methods[f"{node.name}.{st.name}"] = node.name
+                    for st in node.body:
+                        if (isinstance(st, ast.Assign) and len(st.targets) == 1 and isinstance(st.targets[0], ast.Name)
+                                and isinstance(st.value, ast.Name) and f"{node.name}.{st.value.id}" in self.methods):
+                            self.aliases[node.name].append((st.targets[0].id, st.value.id, st.lineno))
         for node in pending_nt:
             self.nts[node.name] = []          # so that self references resolve
         for node in pending_nt:
@@ -238,6 +310,8 @@ class Module:
             return "int"
         if s in self.nts:
             return ("nt", s)
+        if s in self.classes:
+            return ("obj", s)
         if self.profile.ext and (s == self.profile.filter_base or s in self.profile.ctors):
             return "filter"
         if isinstance(a, ast.Subscript):
@@ -247,6 +321,9 @@ class Module:
                 return ("list", self.ann_type(args[0]))
             if head in ("t.Optional", "typing.Optional", "Optional"):
                 return ("opt", self.ann_type(args[0]))
+            if head in ("t.Type", "typing.Type", "Type", "type") and len(args) == 1 \
+                    and ast.unparse(args[0]) in self.typevars:
+                return ("ctor", self.typevars[ast.unparse(args[0])])
             if head in ("t.Union", "typing.Union", "Union"):
                 tys = {self.ann_type(x) for x in args}
                 if len(tys) == 1:
@@ -307,6 +384,8 @@ def assigned_names(stmts) -> list[str]:
                 target(e)
         elif isinstance(t, ast.Subscript) and isinstance(t.value, ast.Name):
             add(t.value.id)
+        elif isinstance(t, ast.Attribute) and self_root(t) is not None:
+            add(self_root(t))                   # `self.x = e` rebinds (the record) `self`
 
     def pops(st):
         # `x.pop(0)` anywhere inside a simple statement mutates x
@@ -332,6 +411,9 @@ def assigned_names(stmts) -> list[str]:
             if (isinstance(f, ast.Attribute) and isinstance(f.value, ast.Name)
                     and f.attr in ("append", "extend", "reverse")):
                 add(f.value.id)
+            elif (isinstance(f, ast.Attribute) and isinstance(f.value, ast.Attribute)
+                    and f.attr in ("append", "extend", "reverse") and self_root(f.value) is not None):
+                add(self_root(f.value))         # `self.x.extend(e)`
         elif isinstance(st, ast.If):
             for s in st.body + st.orelse:
                 visit(s)
@@ -394,7 +476,12 @@ class FuncTranslator:
         self.gen = gen
         self.pyname = pyname
         self.node = node
-        self.lname = lean_name(pyname.replace(".", "_"))
+        self.cls = mod.methods.get(pyname)          # the class, when this is a method taking `self`
+        self.lname = lean_name(pyname) if self.cls else lean_name(pyname.replace(".", "_"))
+        self.is_init = self.cls is not None and node.name == "__init__"
+        self.self_name = None                       # the name of the first parameter of a method
+        self.mutates_self = False                   # the method stores into / mutates the state of `self`
+        self.init_fields: dict[str, tuple[str, object]] = {}    # __init__: field -> (local variable, type)
         self.aux: list[str] = []          # loop functions, emitted before the main def
         self.tmp = 0
         self.loops = 0
@@ -435,11 +522,28 @@ class FuncTranslator:
         args = list(a.args)
         defaults = [None] * (len(args) - len(a.defaults)) + list(a.defaults)
         if "." in self.pyname:            # classmethod: drop cls
+            if self.cls:
+                if not args:
+                    raise Unsupported(self.node, "method without self")
+                self.self_name = args[0].arg
+                if not self.is_init:
+                    self.gen.class_fields_of(self.cls, self.node)      # translates __init__ first
+                    self.params.append((self.self_name, ("obj", self.cls), None))
+                    self.mutates_self = self.find_self_mutation()
             args, defaults = args[1:], defaults[1:]
         for p, d in list(zip(args, defaults)) + list(zip(a.kwonlyargs, a.kw_defaults)):
             if p.annotation is None:
                 raise Unsupported(p, f"parameter {p.arg} has no annotation")
-            ty = self.mod.ann_type(p.annotation)
+            if self.cls:
+                try:
+                    ty = self.mod.ann_type(p.annotation)
+                except Unsupported:
+                    # a parameter the body never mentions cannot influence it: dropped (`__exit__(exc_type, ..)`)
+                    if any(isinstance(n, ast.Name) and n.id == p.arg for st in self.node.body for n in ast.walk(st)):
+                        raise
+                    ty = "unused"
+            else:
+                ty = self.mod.ann_type(p.annotation)
             if self.prof.ext and ty == "str":
                 ty = self.gen.str_param_kind(self.pyname, p.arg)
             self.params.append((p.arg, ty, d))
@@ -450,12 +554,70 @@ class FuncTranslator:
                 self.ret_annot = None
 
     def kept_params(self):
-        return [(n, ty, d) for (n, ty, d) in self.params if ty != "str" and ty != ("opt", "str")]
+        return [(n, ty, d) for (n, ty, d) in self.params if ty != "str" and ty != ("opt", "str") and ty != "unused"]
+
+    def find_self_mutation(self) -> bool:
+        s = self.self_name
+        for st in self.node.body:
+            for n in ast.walk(st):
+                if isinstance(n, ast.Attribute) and isinstance(n.ctx, ast.Store) and self_root(n) == s:
+                    return True
+                if isinstance(n, ast.Call) and isinstance(n.func, ast.Attribute) \
+                        and n.func.attr in ("append", "extend", "reverse") \
+                        and isinstance(n.func.value, ast.Attribute) and self_root(n.func.value) == s:
+                    return True
+        return False
+
+    def self_type(self):
+        return ("obj", self.cls)
+
+    def narrow_binder(self, key: str) -> str:
+        """the local variable that holds `self.f` once it is known not to be None"""
+        return self.var(key) if "." not in key else key.replace(".", "_").replace("__", "_")
+
+    def translate_init(self) -> str:
+        """`__init__`: a sequence of `self.f = e`; becomes the constructor function of the state record.
+        Fields that no other method of the class mentions are not part of the record."""
+        env = {n: ty for n, ty, _ in self.params}
+        lines = []
+        for st in self.node.body:
+            if isinstance(st, ast.Expr) and isinstance(st.value, ast.Constant) and isinstance(st.value.value, str):
+                continue
+            if not (isinstance(st, ast.Assign) and len(st.targets) == 1 and isinstance(st.targets[0], ast.Attribute)
+                    and isinstance(st.targets[0].value, ast.Name) and st.targets[0].value.id == self.self_name):
+                raise Unsupported(st, "__init__ statement other than `self.f = e`")
+            f = st.targets[0].attr
+            if f in self.init_fields:
+                raise Unsupported(st, f"field {f} assigned twice in __init__")
+            pre, term, ty = self.expr(st.value, env)
+            if ty in ("none", "str", "structB", "unused"):
+                raise Unsupported(st, f"cannot type the field {f} from {ast.unparse(st.value)}")
+            lv = lean_name(f) + "_"
+            lines += pre + [f"let {lv} : {lean_type(ty)} := {term}"]
+            self.init_fields[f] = (lv, ty)
+        live = self.gen.live_fields(self.cls)
+        fields = [(f, lean_name(f), ty) for f, (_, ty) in self.init_fields.items() if f in live]
+        self.gen.class_fields[self.cls] = fields
+        lit = "({ " + ", ".join(f"{lf} := {self.init_fields[f][0]}" for f, lf, _ in fields) + " } : " + self.cls + ")"
+        lines.append(f"Except.ok {lit}")
+        self.ret_type = self.self_type()
+        rec = any(self.cls in repr(ty) for _, _, ty in fields)
+        struct = [f"/-- the state of an `{self.cls}` instance: the fields its `__init__` sets and its methods use -/",
+                  f"structure {self.cls} where"]
+        struct += [f"  {lf} : {lean_type(ty)}" for _, lf, ty in fields]
+        struct += ["  deriving Repr" if rec else "  deriving DecidableEq, Repr"]
+        ps = "".join(f" ({self.var(n)} : {lean_type(ty)})" for n, ty, _ in self.kept_params())
+        fuel = " (fuel : Nat)" if self.uses_fuel else ""
+        doc = f"/-- `{self.pyname}` ({self.prof.file} line {self.node.lineno}): the constructor `{self.cls}(..)` -/"
+        head = f"def {self.lname}{fuel}{ps} : Except {self.prof.err} {lean_type_atom(self.ret_type)} := do"
+        return "\n\n".join(["\n".join(struct)] + self.aux + [doc + "\n" + head + "\n" + indent(lines, 1)])
 
     # ---- whole function
 
     def translate(self) -> str:
         self.signature()
+        if self.is_init:
+            return self.translate_init()
         env = {}
         for n, ty, _ in self.params:
             env[n] = ty               # message-only (str) parameters stay in env so that they type-check, but
@@ -496,6 +658,9 @@ class FuncTranslator:
         return self.rec_param()
 
     def fall_off_end(self, env):
+        if self.mutates_self:
+            self.note_return(self.node, self.self_type())
+            return [f"Except.ok {self.var(self.self_name)}"]
         self.note_return(self.node, "none")
         return ["Except.ok ()"]
 
@@ -621,6 +786,13 @@ class FuncTranslator:
                 raise Unsupported(st, f"cannot unpack a value of type {ty} into {len(names)} names")
             if isinstance(tgt, ast.Subscript) and isinstance(tgt.value, ast.Name):
                 return self.store(st, tgt, None, st.value, env)
+            if isinstance(tgt, ast.Attribute) and self.cls and self_root(tgt) == self.self_name:
+                # `self.f = e`: the record `self` is rebound with the field replaced
+                _, fty, setter = self.place(tgt, env)
+                pre, term, ty = self.expr(st.value, env)
+                out = pre + setter(self.coerce(st, term, ty, fty))
+                env.pop(ast.unparse(tgt), None)          # a narrowing of the old value is gone
+                return out
             raise Unsupported(st, "assignment target outside the subset")
         if isinstance(st, ast.AugAssign):
             if isinstance(st.target, ast.Name):
@@ -635,6 +807,27 @@ class FuncTranslator:
             raise Unsupported(st, "augmented assignment target outside the subset")
         if isinstance(st, ast.Expr) and isinstance(st.value, ast.Call):
             f = st.value.func
+            if self.cls and isinstance(f, ast.Attribute) and isinstance(f.value, ast.Attribute) \
+                    and f.attr in ("append", "extend", "reverse") and self_root(f.value) == self.self_name:
+                # `self.x.extend(e)`, `self.p.x.extend(e)`: the bytearray is a field of a state record
+                get, pty, setter = self.place(f.value, env)
+                if pty != "bytes":
+                    raise Unsupported(st, f".{f.attr} on a non-bytearray")
+                args = st.value.args
+                if st.value.keywords:
+                    raise Unsupported(st, f"keyword argument of .{f.attr}")
+                if f.attr == "reverse" and not args:
+                    return setter(f"{atom(get)}.reverse")
+                if f.attr == "append" and len(args) == 1:
+                    pre, term, ty = self.expr(args[0], env)
+                    self.want(st, ty, "int")
+                    t = self.fresh()
+                    return pre + [f"let {t} ← baAppend {atom(get)} {atom(term)}"] + setter(t)
+                if f.attr == "extend" and len(args) == 1:
+                    pre, term, ty = self.expr(args[0], env)
+                    self.want(st, ty, "bytes")
+                    return pre + setter(f"{atom(get)} ++ {atom(term)}")
+                raise Unsupported(st, f"arguments of .{f.attr}")
             if self.prof.ext and isinstance(f, ast.Attribute) and f.attr == "pop":
                 pre, _, _ = self.expr(st.value, env)      # the value popped is discarded
                 return pre
@@ -689,11 +882,47 @@ class FuncTranslator:
         out.append(f"let {v} ← setItem {v} {atom(idx)} {atom(term)}")
         return out
 
+    def place(self, node, env):
+        """(term, type, setter) for an assignable place `self.f` / `self.f.g` / a narrowed `self.f`;
+        `setter(new)` gives the lines that rebind `self` (and the narrowed local) with the place replaced"""
+        if isinstance(node, ast.Name):
+            ty = self.lookup(node, env, node.id)
+            v = self.var(node.id)
+            return v, ty, (lambda new: [f"let {v} : {lean_type(ty)} := {new}"])
+        if not isinstance(node, ast.Attribute):
+            raise Unsupported(node, "assignment through something other than an attribute chain")
+        key = ast.unparse(node)
+        if key in env and isinstance(node.value, ast.Name) and node.value.id == self.self_name:
+            # `self.f` narrowed to a local: the local changes and is written back as `some local`
+            b = self.narrow_binder(key)
+            ty = env[key]
+            _, oty, oset = self.place_field(node, env)
+            return b, ty, (lambda new: [f"let {b} : {lean_type(ty)} := {new}"] + oset(f"some {b}"))
+        return self.place_field(node, env)
+
+    def place_field(self, node, env):
+        g, oty, oset = self.place(node.value, env)
+        if not (isinstance(oty, tuple) and oty[0] == "obj"):
+            raise Unsupported(node, f"attribute .{node.attr} of a {oty} as an assignment target")
+        for f, lf, fty in self.gen.class_fields_of(oty[1], node):
+            if f == node.attr:
+                return f"{atom(g)}.{lf}", fty, (lambda new: oset(f"{{ {g} with {lf} := {new} }}"))
+        raise Unsupported(node, f"{oty[1]} has no field {node.attr} (fields are those set by __init__)")
+
     def want(self, node, ty, expected):
         if ty != expected:
             raise Unsupported(node, f"expected {expected}, got {ty}")
 
     def return_stmt(self, st, env):
+        if self.mutates_self:
+            # a method that changes the state of `self` returns the new state (beside its value, if any)
+            sv = self.var(self.self_name)
+            if st.value is None or (isinstance(st.value, ast.Constant) and st.value.value is None):
+                self.note_return(st, self.self_type())
+                return [f"Except.ok {sv}"]
+            pre, term, ty = self.expr(st.value, env)
+            self.note_return(st, ("tuple", (ty, self.self_type())))
+            return pre + [f"Except.ok ({term}, {sv})"]
         if st.value is None:
             self.note_return(st, "none")
             return ["Except.ok ()"]
@@ -784,33 +1013,71 @@ class FuncTranslator:
         if isinstance(test, ast.Name):
             ty = env.get(test.id)
             if isinstance(ty, tuple) and ty[0] == "opt":
-                if not (isinstance(ty[1], tuple) and ty[1][0] == "nt" and self.mod.nts[ty[1][1]]):
+                if not self.always_truthy(ty[1]):
                     raise Unsupported(test, f"truth value of Optional[{ty[1]}]")
                 return test.id, not neg
+        if self.cls and not self.is_init and isinstance(test, ast.Attribute) and isinstance(test.value, ast.Name) \
+                and test.value.id == self.self_name and ast.unparse(test) not in env:
+            # `self.f` / `not self.f` for an Optional field: the key is the text `self.f`
+            for f, lf, fty in self.gen.class_fields_of(self.cls, test):
+                if f == test.attr and isinstance(fty, tuple) and fty[0] == "opt":
+                    if not self.always_truthy(fty[1]):
+                        raise Unsupported(test, f"truth value of Optional[{fty[1]}]")
+                    return ast.unparse(test), not neg
         return None
+
+    def always_truthy(self, ty) -> bool:
+        """instances are always true: a non-empty named tuple, or a class without __bool__ / __len__"""
+        if isinstance(ty, tuple) and ty[0] == "nt":
+            return bool(self.mod.nts[ty[1]])
+        if isinstance(ty, tuple) and ty[0] == "obj":
+            return not any(isinstance(st, ast.FunctionDef) and st.name in ("__bool__", "__len__")
+                           for st in self.mod.classes[ty[1]].body)
+        return False
+
+    def narrow_info(self, key, env):
+        """(scrutinee term, type) of a narrowing key (a variable name or the text `self.f`)"""
+        if "." not in key:
+            return self.var(key), env[key]
+        attr = key.split(".", 1)[1]
+        for f, lf, fty in self.gen.class_fields_of(self.cls, self.node):
+            if f == attr:
+                return f"{self.var(self.self_name)}.{lf}", fty
+        raise Unsupported(self.node, f"no field {attr}")
 
     def if_stmt(self, st, rest, env, ctx, k):
         def after(env2):
             return self.block(rest, env2, ctx, k)
 
+        if self.cls and isinstance(st.test, ast.BoolOp) and isinstance(st.test.op, ast.Or) and not st.orelse \
+                and always_leaves(st.body) and any(self.narrowing(v, env) for v in st.test.values):
+            # `if A or B: <leaves>` is `if A: <leaves>` followed by `if B: <leaves>` (short circuit), which lets
+            # each operand narrow an Optional for the statements that follow
+            vals = st.test.values
+            first = ast.copy_location(ast.If(test=vals[0], body=st.body, orelse=[]), st)
+            more = vals[1] if len(vals) == 2 else ast.copy_location(ast.BoolOp(op=ast.Or(), values=vals[1:]), st.test)
+            second = ast.copy_location(ast.If(test=more, body=st.body, orelse=[]), st)
+            return self.if_stmt(first, [second] + list(rest), env, ctx, k)
         nar = self.narrowing(st.test, env)
         if nar:
             name, truthy_some = nar
+            scrut, oty = self.narrow_info(name, env)
+            binder = self.narrow_binder(name)
             env_some = dict(env)
-            env_some[name] = env[name][1]
+            env_some[name] = oty[1]
             some_body, none_body = (st.body, st.orelse) if truthy_some else (st.orelse, st.body)
-            arms = [("none", none_body, env), (f"some {self.var(name)}", some_body, env_some)]
+            arms = [("none", none_body, env), (f"some {binder}", some_body, env_some)]
             pre = []
 
             def wrap(parts):
-                out = [f"match {self.var(name)} with"]
+                out = [f"match {scrut} with"]
                 for (pat, _, _), lines in zip(arms, parts):
                     out.append(f"| {pat} =>")
                     out += indent_lines(lines, 1)
                 return out
 
             def wrap_expr(parts):
-                return "(" + f"match {self.var(name)} with " + " ".join(
+                return "(" + f"match {scrut} with " + " ".join(
                     f"| {pat} => {p}" for (pat, _, _), p in zip(arms, parts)) + ")"
         else:
             pre, c = self.cond(st.test, env)
@@ -875,10 +1142,10 @@ class FuncTranslator:
         if pure:
             if not merged:
                 return pre + after(new_env)
-            heads = [f"match {self.var(name)} with", None] if nar else [f"if {c} then", "else"]
+            heads = [f"match {scrut} with", None] if nar else [f"if {c} then", "else"]
             if nar:
                 heads = [f"| {pat} =>" for pat, _, _ in arms]
-                text = [f"let {tup} : {tup_ty} := match {self.var(name)} with"]
+                text = [f"let {tup} : {tup_ty} := match {scrut} with"]
             else:
                 heads = [f"if {c} then", "else"]
                 text = [f"let {tup} : {tup_ty} :="]
@@ -1241,6 +1508,11 @@ class FuncTranslator:
         if isinstance(ty, tuple) and ty[0] == "opt" and isinstance(ty[1], tuple) and ty[1][0] == "nt" \
                 and self.mod.nts[ty[1][1]]:
             return pre, f"{atom(term)}.isSome = true"
+        if isinstance(ty, tuple) and ty[0] == "obj" and self.always_truthy(ty):
+            return pre, "True"
+        if isinstance(ty, tuple) and ty[0] == "opt" and isinstance(ty[1], tuple) and ty[1][0] == "obj" \
+                and self.always_truthy(ty[1]):
+            return pre, f"{atom(term)}.isSome = true"
         raise Unsupported(node, f"truth value of a {ty}")
 
     def str_literal(self, node, value: str, ty):
@@ -1362,6 +1634,22 @@ class FuncTranslator:
             if ta == "int" and tb == "int" and not p2:
                 return p1, f"(if {a} ≠ 0 then {a} else {b} : Int)", "int"
             self.restore(snap)
+        if not self.prof.ext and isinstance(node, ast.BoolOp) and isinstance(node.op, ast.Or) \
+                and len(node.values) == 2 and isinstance(node.values[0], ast.Name):
+            # `v or e` as a value, v an Optional whose instances are always true: v if it is not None, else e
+            ty0 = env.get(node.values[0].id)
+            if isinstance(ty0, tuple) and ty0[0] == "opt" and self.always_truthy(ty0[1]):
+                v = self.var(node.values[0].id)
+                p2, b, tb = self.expr(node.values[1], env)
+                if tb != ty0[1]:
+                    raise Unsupported(node, f"`or` of {ty0} and {tb}")
+                if not p2:
+                    return [], f"(match {v} with | none => {b} | some {v} => {v})", tb
+                t = self.fresh()
+                pre = [f"let {t} : {lean_type(tb)} ← (match {v} with",
+                       "  | none =>"] + indent_lines(do_block(p2 + [f"Except.ok {atom(b)}"]), 2) + \
+                      [f"  | some {v} =>", f"    Except.ok {v})"]
+                return pre, t, tb
         if isinstance(node, (ast.Compare, ast.BoolOp)):
             pre, c = self.cond(node, env)
             return pre, f"decide ({c})", "bool"
@@ -1381,11 +1669,24 @@ class FuncTranslator:
                     if mname == node.attr:
                         return [], int_lit(mval), "int"
                 raise Unsupported(node, f"{node.value.id} has no member {node.attr}")
+            if self.cls and isinstance(node.value, ast.Name) and node.value.id == self.self_name:
+                if self.is_init:
+                    if node.attr not in self.init_fields:
+                        raise Unsupported(node, f"self.{node.attr} read before it is set")
+                    return [], self.init_fields[node.attr][0], self.init_fields[node.attr][1]
+                key = ast.unparse(node)
+                if key in env:                      # narrowed: known not to be None here
+                    return [], self.narrow_binder(key), env[key]
             pre, a, ty = self.expr(node.value, env)
             if isinstance(ty, tuple) and ty[0] == "nt":
                 for f, fty in self.mod.nts[ty[1]]:
                     if f == node.attr:
                         return pre, f"{atom(a)}.{f}", fty
+            if isinstance(ty, tuple) and ty[0] == "obj":
+                for f, lf, fty in self.gen.class_fields_of(ty[1], node):
+                    if f == node.attr:
+                        return pre, f"{atom(a)}.{lf}", fty
+                raise Unsupported(node, f"{ty[1]} has no field {node.attr} (fields are those set by __init__)")
             raise Unsupported(node, f"attribute .{node.attr} of a {ty}")
         if isinstance(node, ast.Subscript):
             pre, a, ty = self.expr(node.value, env)
@@ -1446,8 +1747,9 @@ class FuncTranslator:
         nar = self.narrowing(node.test, env)
         if nar:
             name, truthy_some = nar
+            scrut, oty = self.narrow_info(name, env)
             env_some = dict(env)
-            env_some[name] = env[name][1]
+            env_some[name] = oty[1]
             some_e, none_e = (node.body, node.orelse) if truthy_some else (node.orelse, node.body)
             p_none, t_none, ty_none = self.expr(none_e, env)
             p_some, t_some, ty_some = self.expr(some_e, env_some)
@@ -1455,11 +1757,11 @@ class FuncTranslator:
                 raise Unsupported(node, f"conditional expression of types {ty_some} / {ty_none}")
             if ty_none == "str":
                 return [], '""', "str"
-            v = self.var(name)
+            v = self.narrow_binder(name)
             if not p_none and not p_some:
-                return [], f"(match {v} with | none => {t_none} | some {v} => {t_some})", ty_none
+                return [], f"(match {scrut} with | none => {t_none} | some {v} => {t_some})", ty_none
             t = self.fresh()
-            pre = [f"let {t} : {lean_type(ty_none)} ← (match {v} with",
+            pre = [f"let {t} : {lean_type(ty_none)} ← (match {scrut} with",
                    "  | none =>"] + indent_lines(do_block(p_none + [f"Except.ok {atom(t_none)}"]), 2) + \
                   [f"  | some {v} =>"] + indent_lines(do_block(p_some + [f"Except.ok {atom(t_some)}"]), 2)
             pre[-1] += ")"
@@ -1482,6 +1784,19 @@ class FuncTranslator:
 
     def call(self, node, env):
         f = node.func
+        if isinstance(f, ast.Name) and isinstance(env.get(f.id), tuple) and env[f.id][0] == "ctor":
+            # `enum_type(v)` for a parameter `enum_type: t.Type[T]`: the conversion is the caller's function
+            if len(node.args) != 1 or node.keywords:
+                raise Unsupported(node, f"call of the type parameter {f.id} with other than one argument")
+            pre, a, ty = self.expr(node.args[0], env)
+            self.want(node, ty, env[f.id][1])
+            t = self.fresh()
+            return pre + [f"let {t} ← {self.var(f.id)} {atom(a)}"], t, env[f.id][1]
+        if isinstance(f, ast.Name) and f.id not in env and f.id in self.mod.classes:
+            q = f"{f.id}.__init__"
+            if q not in self.mod.funcs:
+                raise Unsupported(node, f"class {f.id} has no __init__")
+            return self.fn_call(node, q, env)
         # builtins
         if isinstance(f, ast.Name) and f.id not in env:
             if f.id == "len" and len(node.args) == 1 and not node.keywords:
@@ -1846,6 +2161,7 @@ class Generator:
         self.scc_of: dict[str, frozenset] = {}      # function -> its recursive group (absent: not recursive)
         self.head_of: dict[str, str] = {}           # function -> entry function of its recursive group
         self.scc_problem: dict[str, str] = {}
+        self.class_fields: dict[str, list[tuple[str, str, object]]] = {}   # class -> [(field, lean field, type)]
         if mod.profile.ext:
             self.find_recursive_groups()
 
@@ -1912,6 +2228,27 @@ class Generator:
                 continue
             for m in members:
                 self.head_of[m] = head
+
+    def live_fields(self, cls: str) -> set[str]:
+        """attribute names mentioned by the methods of the class other than __init__"""
+        out = set()
+        for st in self.mod.classes[cls].body:
+            if isinstance(st, ast.FunctionDef) and st.name != "__init__":
+                for n in ast.walk(st):
+                    if isinstance(n, ast.Attribute):
+                        out.add(n.attr)
+        return out
+
+    def class_fields_of(self, cls: str, at):
+        """the fields of the state record of `cls` (its __init__ is translated on demand)"""
+        if cls not in self.class_fields:
+            q = f"{cls}.__init__"
+            if q in self.stack:
+                raise Unsupported(at, f"state of {cls} used inside its own __init__")
+            if q not in self.mod.funcs:
+                raise Unsupported(at, f"class {cls} has no __init__")
+            self.require(q, at)
+        return self.class_fields[cls]
 
     def scc_uses_fuel(self, head: str, at) -> bool:
         """does any member of the group contain a `while`, or call a function outside that takes fuel?"""
@@ -2041,6 +2378,99 @@ class Generator:
                 self.require(tname, self.mod.funcs[tname])
             except Unsupported:
                 pass
+        if not self.mod.profile.ext:
+            self.derive_class_defs()
+
+    # ---- definitions derived from class-level facts: method aliases, the `with` protocol
+
+    def owner_field(self, q: str):
+        """for a method `q` whose body ends in `return C(.., p=self, ..)`: (C, the field of C in which __init__
+        stores p), i.e. the returned object refers to the object the method was called on"""
+        ft = self.done[q]
+        last = ft.node.body[-1]
+        if not (isinstance(last, ast.Return) and isinstance(last.value, ast.Call)
+                and isinstance(last.value.func, ast.Name) and last.value.func.id in self.mod.classes):
+            return None
+        cname = last.value.func.id
+        init = self.mod.funcs.get(f"{cname}.__init__")
+        if init is None or any(isinstance(n, ast.Return) for st in ft.node.body[:-1] for n in ast.walk(st)):
+            return None
+        names = [a.arg for a in init.args.args[1:]]
+        given = list(zip(names, last.value.args)) + [(kw.arg, kw.value) for kw in last.value.keywords]
+        for pname, v in given:
+            if isinstance(v, ast.Name) and v.id == ft.self_name:
+                for st in init.body:
+                    if (isinstance(st, ast.Assign) and isinstance(st.targets[0], ast.Attribute)
+                            and isinstance(st.value, ast.Name) and st.value.id == pname):
+                        return cname, st.targets[0].attr
+        return None
+
+    def derive_class_defs(self):
+        err = self.mod.profile.err
+        self.extra: dict[str, str] = {}
+        for cname, cnode in self.mod.classes.items():
+            withs = {}
+            enter, exit_ = self.done.get(f"{cname}.__enter__"), self.done.get(f"{cname}.__exit__")
+            enter_is_self = (enter is not None and len([st for st in enter.node.body if not isinstance(st, ast.Expr)]) == 1
+                             and isinstance(enter.node.body[-1], ast.Return)
+                             and isinstance(enter.node.body[-1].value, ast.Name)
+                             and enter.node.body[-1].value.id == enter.self_name)
+            if enter_is_self and exit_ is not None and len(exit_.kept_params()) == 1:
+                # `with <obj>.m(args) as w: BODY` for every method m that returns a fresh `cname` referring to <obj>
+                for q, ft in list(self.done.items()):
+                    if not ft.cls or ft.is_init or ft.mutates_self or ft.ret_type != ("obj", cname):
+                        continue
+                    own = self.owner_field(q)
+                    if own is None or own[0] != cname:
+                        continue
+                    lf = next((lf for f, lf, fty in self.class_fields[cname]
+                               if f == own[1] and fty == ("opt", ("obj", ft.cls))), None)
+                    if lf is None:
+                        continue
+                    kp = ft.kept_params()
+                    sv = ft.var(ft.self_name)
+                    fuel = ft.uses_fuel or enter.uses_fuel or exit_.uses_fuel
+                    ps = "".join(f" ({ft.var(n)} : {lean_type(ty)})" for n, ty, _ in kp)
+                    args = "".join(f" {ft.var(n)}" for n, _, _ in kp)
+                    name = f"{ft.cls}_with_{ft.node.name}"
+                    fl = lambda t: " fuel" if t.uses_fuel else ""
+                    lines = [
+                        f"/-- `with {sv}.{ft.node.name}(..) as w: BODY` — the context manager protocol of `{cname}`",
+                        f"    (`__enter__` line {enter.node.lineno}, which returns the manager itself; `__exit__` line {exit_.node.lineno}):",
+                        f"    `w = {sv}.{ft.node.name}(..)`, BODY as a function of the state of `w`, `w.__exit__(None, None, None)`.",
+                        f"    `w.{own[1]}` refers to the object `{sv}`, so the state of `{sv}` afterwards is read back from",
+                        f"    there (BODY is assumed to reach `{sv}` only through `w`).  Result: the state of `{sv}` after the statement. -/",
+                        f"def {name}{' (fuel : Nat)' if fuel else ''}{ps} (body : {cname} → Except {err} {cname}) : Except {err} {ft.cls} := do",
+                        f"  let w_ ← {ft.lname}{fl(ft)}{args}",
+                        f"  let w_ ← {enter.lname}{fl(enter)} w_",
+                        f"  let w_ ← body w_",
+                        (f"  let w_ ← {exit_.lname}{fl(exit_)} w_" if exit_.mutates_self
+                         else f"  let _ ← {exit_.lname}{fl(exit_)} w_"),
+                        f"  match w_.{lf} with",
+                        f"  | none =>",
+                        f"    Except.ok {sv}",
+                        f"  | some {sv} =>",
+                        f"    Except.ok {sv}",
+                    ]
+                    pseudo = f"{ft.cls}.with_{ft.node.name}"
+                    self.extra[pseudo] = "\n".join(lines)
+                    self.order.append(pseudo)
+                    withs[ft.node.name] = name
+            for alias, meth, line in self.mod.aliases[cname]:
+                q = f"{cname}.{meth}"
+                pseudo = f"{cname}.{alias}"
+                if q in self.done:
+                    self.extra[pseudo] = (
+                        f"/-- `{cname}.{alias}` ({self.mod.profile.file} line {line}): the class attribute `{alias} = {meth}` -/\n"
+                        f"def {lean_name(pseudo)} := @{self.done[q].lname}")
+                    if meth in withs:
+                        self.extra[pseudo] += (
+                            f"\n\n/-- `with x.{alias}(..) as w: BODY` (`{alias} = {meth}`) -/\n"
+                            f"def {cname}_with_{alias} := @{withs[meth]}")
+                    self.order.append(pseudo)
+                elif q in self.failed:
+                    self.failed[pseudo] = f"alias of {q}, which is untranslated"
+                    self.order.append(pseudo)
 
     def render(self, src_label: str) -> str:
         out = []
@@ -2071,8 +2501,10 @@ class Generator:
         for pyname in self.order:
             if pyname in self.done:
                 w(self.done[pyname].text)
+            elif pyname in getattr(self, "extra", {}):
+                w(self.extra[pyname])
             else:
-                lname = lean_name(pyname.replace(".", "_"))
+                lname = lean_name(pyname) if pyname.split(".")[0] in self.mod.classes else lean_name(pyname.replace(".", "_"))
                 reason = self.failed[pyname].replace("\\", "\\\\").replace('"', '\\"')
                 w(f"/-- `{pyname}` is outside the translated subset -/")
                 w(f'def {lname}_untranslated : String := "{reason}"')
@@ -2140,7 +2572,7 @@ def main(argv):
                 print(f"py2lean: {out_path} differs from what the source generates now", file=sys.stderr)
                 stale = True
         else:
-            os.makedirs(os.path.dirname(out_path), exist_ok=True)
+            os.makedirs(os.path.dirname(out_path) or ".", exist_ok=True)
             with open(out_path, "w", encoding="utf-8") as fh:
                 fh.write(text)
             print(f"py2lean: wrote {os.path.normpath(out_path)} ({len(gen.done)} functions, {len(gen.failed)} untranslated)")
